@@ -32,6 +32,7 @@ RULE = (
     "{first generation, stale}. distinct = by (scenario, size, k, mode) / history; non-trivial = the fault "
     "actually fired (child died or raised) / the history contained both a due and a not-due construction."
 )
+RULE += ' added since: histories run through four construction routes: Template(module_directory), Template(module_filename), TemplateLookup(module_directory), TemplateLookup(modulename_callable) without a module directory.'
 ASSUMPTIONS = [
     "'die' is process death with the kernel intact (os._exit); power-loss ordering cannot be observed from user space",
     "the injector counts exists/stat/makedirs/mkstemp/write/close/move/rename calls that concern the module directory",
